@@ -279,7 +279,9 @@ def fmWrite (g : Guard) (log p : Path) (c : Str) : List Op :=
 /-- `ExceptionsEmitter.emit(ir, core, client_package_name=output_package)` with
     `overall_project_root = root`. -/
 def excOps (sp : PlanSpec) (root core : Path) (client : Str) : List Op :=
-  (if !client.isEmpty && isSharedCore (some root) core then [always (.write (core ++ [fRegistry]) sp.registry)]
+  -- `_is_shared_core(output_dir, client_package_name)` (F22 repaired: also any core directory outside the client's package)
+  (if !client.isEmpty && isSharedCoreFor (some root) core (some ((splitOnC '.' client).filter (fun s => !s.isEmpty)))
+   then [always (.write (core ++ [fRegistry]) sp.registry)]
    else []) ++
   [always (.write (core ++ [fAliases]) sp.aliases)]
 
@@ -376,13 +378,14 @@ def forcePlan (c : PlanCfg) (sp : PlanSpec) : List (Stage × List Op) :=
       (if core ≠ out then [always (.mkdirs (parentDir core)), always (.mkdirs core)] else [])),
    (.inits, initLoop c.root out ++ (if !strPrefixTest core out then initLoop c.root core else [])),
    (.exceptions, excOps sp c.root core c.outputPackage),
-   (.core, coreOps sp log out core ++ coreOps sp log out core),
+   -- F19 repaired: each emitter runs exactly once (the second evaluations inside the log f-strings are gone)
+   (.core, coreOps sp log out core),
    (.models, modelOps sp out),
-   (.endpoints, endpointOps sp log out 0 ++ endpointOps sp log out 1),
+   (.endpoints, endpointOps sp log out 0),
    (.client, clientOps sp log out),
-   (.mocks, mockOps sp log out 2),
+   (.mocks, mockOps sp log out 1),
    (.richInit, if c.richInit then [always (.write (out ++ [fInit]) sp.richInit)] else []),
-   (.postprocess, if c.noPostprocess then [] else postOps (generatedPy sp out core 2 c.richInit))]
+   (.postprocess, if c.noPostprocess then [] else postOps (generatedPy sp out core 1 c.richInit))]
 
 /-- The `if not force and out_dir.exists():` branch, after `mkdtemp`. -/
 def diffPlan (c : PlanCfg) (sp : PlanSpec) : List (Stage × List Op) :=
